@@ -66,6 +66,7 @@ def check(ctx):
     ctx.require_min('C04.M', 5)
     ctx.require_min('C04.F', 8)
     witness.check_static_unit(ctx, 'C04.W', os.path.join(extract.VERIF, 'witness', 's_select.cpp'), 'policy selection', tag='C04')
+    witness.check_static_unit(ctx, 'C04.W', os.path.join(extract.VERIF, 'witness', 's_meta.cpp'), 'map policy detection and selection', tag='C04')
     witness.check_fail_unit(ctx, 'C04.W', os.path.join(extract.VERIF, 'witness', 'f_argpass.cpp'), 'argument passing mode')
 
 
